@@ -280,7 +280,7 @@ def check_case(run, case, tier='quick'):
     import random
     rng = random.Random(case['hseed'])
     name, path = gstream.materialise(case['spec'], 'c12')
-    sn = session.new_session_name('c12')
+    sn = session.new_session_name('c12') + rng.choice(['', '', '.sav', 'a', '.saved.x', '.v'])       # session names are free text
     try:
         U, s0 = sched.run_scheduled(['-r', name, '-s', sn])
         if U.exc is not None or len(U.pops) < 4:
